@@ -44,8 +44,8 @@ type prims struct {
 	deriver keyderivation.KeysetDeriver
 	pubH    *keyset.Handle
 	// ML-DSA external-mu primitives (signprehash), present when the key supports them
-	prehash  tink.Prehash
-	psigner  tink.PrehashSigner
+	prehash tink.Prehash
+	psigner tink.PrehashSigner
 }
 
 func buildPrims(class keycat.Class, kh *keyset.Handle) (*prims, error) {
@@ -785,7 +785,9 @@ func (d *driver) outside(op string, gs *ref.GuardSet, idx int) {
 	}
 }
 
-func signatureVerifier(pubH *keyset.Handle) (tink.Verifier, error) { return signature.NewVerifier(pubH) }
+func signatureVerifier(pubH *keyset.Handle) (tink.Verifier, error) {
+	return signature.NewVerifier(pubH)
+}
 func hybridEncrypter(pubH *keyset.Handle) (tink.HybridEncrypt, error) {
 	return hybrid.NewHybridEncrypt(pubH)
 }
